@@ -47,19 +47,19 @@ Definition complete (l : list resp) (r : resp) : Prop :=
 
 Definition pc_serial (pc : rpc) : option N :=
   match pc with
-  | RChunk rq _ _ | RSend rq _ _ _ => Some (r_serial rq)
+  | RChunk rq _ _ | RSend rq _ _ _ | REnq rq _ _ _ => Some (r_serial rq)
   | _ => None
   end.
 
 Definition pc_req (pc : rpc) : list request :=
-  match pc with RIdle => [] | RTop rq | RChunk rq _ _ | RSend rq _ _ _ => [rq] end.
+  match pc with RIdle => [] | RTop rq | RChunk rq _ _ | RSend rq _ _ _ | REnq rq _ _ _ => [rq] end.
 
 Definition pc_count (st : state) (tr : list event) : Prop :=
   match st_reader st with
   | RChunk rq i ss =>
       count_serial (r_serial rq) (produced st tr) = i /\ i <= r_chunks rq /\
       forall r, In r (produced st tr) -> ser r = r_serial rq -> rs_req r = rq /\ rs_inc r = s_inc ss
-  | RSend rq i ss r0 =>
+  | RSend rq i ss r0 | REnq rq i ss r0 =>
       count_serial (r_serial rq) (produced st tr) = i + 1 /\ i < r_chunks rq /\
       forall r, In r (produced st tr) -> ser r = r_serial rq -> rs_req r = rq /\ rs_inc r = s_inc ss
   | _ => True
@@ -149,7 +149,7 @@ Proof.
     destruct (st_reader st) eqn:Epc; try discriminate. destruct (st_chunreg st) as [|p0 rest0]; [discriminate|].
     inversion H; subst. apply (cinv_frame st tr); simpl; auto; [|lia].
     unfold produced. simpl. rewrite Epc, enqs_app. simpl. rewrite app_nil_r. reflexivity.
-  - destruct (st_reader st) as [|rq|rq i ss|rq i ss r0] eqn:Epc; try discriminate.
+  - destruct (st_reader st) as [|rq|rq i ss|rq i ss r0|rq i ss r0] eqn:Epc; try discriminate.
     + (* top *)
       destruct (st_pending st <? c_limit cfg); [|discriminate].
       destruct (reader_top v_fixed cfg st rq) as [st1 e1] eqn:Et. inversion H; subst st1 e1. clear H.
@@ -238,10 +238,25 @@ Proof.
                  --- assert (Hin : In r' (prod (s_inc ss) st tr)) by (rewrite Hl'; apply in_or_app; right; left; reflexivity).
                      unfold prod, sel in Hin. apply filter_In in Hin. destruct Hin as [_ Hk]. apply N.eqb_eq in Hk. congruence.
            ++ apply DN; [exact Hr1|]. simpl. intros E'. inversion E'. congruence.
+    + (* the addition to the pending size *)
+      unfold reader_add in H. destruct (st_pending st <? c_limit cfg); [|discriminate].
+      inversion H; subst st' evs. clear H. rewrite app_nil_r.
+      unfold pc_count in PC. rewrite Epc in PC. destruct PC as [PC1 [PC2 PC3]].
+      match goal with |- cinv ?s _ => set (st' := s) end.
+      assert (Hprod : produced st' tr = produced st tr).
+      { unfold produced. simpl. rewrite Epc. reflexivity. }
+      simpl in B1, ND.
+      constructor; rewrite ?Hprod; simpl.
+      * exact B1.
+      * exact B2.
+      * exact ND.
+      * exact F1.
+      * intros r1 rq0 _ E. discriminate.
+      * unfold pc_count. simpl. rewrite Hprod. split; [exact PC1|]. split; [exact PC2|exact PC3].
+      * intros r1 Hr1 Hne. apply DN; [exact Hr1|]. exact Hne.
     + (* enqueue *)
       unfold reader_send in H.
-      destruct ((st_pending st <? c_limit cfg) &&
-                (N.of_nat (length (nth (s_sender ss) (st_senders st) [])) <=? c_maxtasks cfg) &&
+      destruct ((N.of_nat (length (nth (s_sender ss) (st_senders st) [])) <=? c_maxtasks cfg) &&
                 (Nat.ltb (s_sender ss) (length (st_senders st)))); [|discriminate].
       inversion H; subst st' evs. clear H.
       unfold pc_count in PC. rewrite Epc in PC. destruct PC as [PC1 [PC2 PC3]].
@@ -410,7 +425,7 @@ Proof.
   - destruct (st_reader st) eqn:Epc; try discriminate. destruct (st_chunreg st) as [|p0 rest0]; [discriminate|].
     inversion H; subst. apply (oinv_frame st tr); simpl; auto.
     unfold produced. simpl. rewrite Epc, enqs_app. simpl. rewrite app_nil_r. reflexivity.
-  - destruct (st_reader st) as [|rq|rq i ss|rq i ss r0] eqn:Epc; try discriminate.
+  - destruct (st_reader st) as [|rq|rq i ss|rq i ss r0|rq i ss r0] eqn:Epc; try discriminate.
     + destruct (st_pending st <? c_limit cfg); [|discriminate].
       destruct (reader_top v_fixed cfg st rq) as [st1 e1] eqn:Et. inversion H; subst st1 e1. clear H.
       assert (Hshape : st_chreq st' = st_chreq st /\ enqs evs = [] /\
@@ -485,9 +500,20 @@ Proof.
                  exists r'. split; [exact Hin|]. split; [congruence|]. split; [exact Hr'|].
                  apply S3; [exact Hin|apply in_or_app; right; left; reflexivity].
            ++ apply S5; [exact Hr1|]. simpl. intros E'. inversion E'. congruence.
+    + unfold reader_add in H. destruct (st_pending st <? c_limit cfg); [|discriminate].
+      inversion H; subst st' evs. clear H. rewrite app_nil_r.
+      match goal with |- oinv ?s _ => set (st' := s) end.
+      assert (Hprod : produced st' tr = produced st tr).
+      { unfold produced. simpl. rewrite Epc. reflexivity. }
+      simpl in S2, S3.
+      constructor; rewrite ?Hprod; simpl.
+      * exact S1.
+      * exact S2.
+      * exact S3.
+      * exact S4.
+      * intros r1 Hr1 Hne. apply S5; [exact Hr1|]. exact Hne.
     + unfold reader_send in H.
-      destruct ((st_pending st <? c_limit cfg) &&
-                (N.of_nat (length (nth (s_sender ss) (st_senders st) [])) <=? c_maxtasks cfg) &&
+      destruct ((N.of_nat (length (nth (s_sender ss) (st_senders st) [])) <=? c_maxtasks cfg) &&
                 (Nat.ltb (s_sender ss) (length (st_senders st)))); [|discriminate].
       inversion H; subst st' evs. clear H.
       match goal with |- oinv ?s _ => set (st' := s) end.
